@@ -287,3 +287,141 @@ Example wire_request_rejects_wrong_nesting :
   judge_request [] ds (VL [VI 0; put_pairs [(tx 97, 1%N); (tx 98, 2%N)];
                            VL (map put_event [Enter (tx 98); Enter (tx 97); Call; Exit (tx 97); Exit (tx 98)])]) = false.
 Proof. vm_compute. split; reflexivity. Qed.
+
+(* =====================================================================
+   Through the OUTERMOST dispatch: for every case put on the wire (encoders below = what harness to_wire writes), feeding
+   the model's answer (run_C18 tag 0/2/4/6) back to the judge entry (tag 1/3/5/7) -- exactly what spec_holds does when the
+   implementation agrees with the model -- yields all-true. *)
+Definition enc_hint (h : hint) : val :=
+  match h with HNone => VL [] | HOne u => VL [VT u] | HMany l => VL [VL (map VT l)] end.
+Definition enc_op (o : op) : val :=
+  match o with
+  | OAdd n v a b => VL [VI 0; VT n; vN v; enc_hint a; enc_hint b]
+  | ORemove n => VL [VI 1; VT n]
+  end.
+Definition enc_tadd (x : node * N * hint * hint) : val :=
+  let '(n, f, u, o) := x in VL [VT n; vN f; enc_hint u; enc_hint o].
+Definition enc_tevent (e : tevent) : val :=
+  match e with TAdd x => VL [VI 0; enc_tadd x] | TImplicit => VL [VI 1] | TRequest => VL [VI 2] end.
+Definition enc_pkind (k : pkind) : val := match k with PView => VI 0 | PRoute => VI 1 | PSubscriber => VI 2 end.
+
+Lemma get_hint_enc h : get_hint (enc_hint h) = Some h.
+Proof.
+  destruct h as [|u|l]; [reflexivity|reflexivity|].
+  change (get_hint (enc_hint (HMany l))) with
+    (match map_opt get_text (map VT l) with Some ts => Some (HMany ts) | None => None end).
+  rewrite (map_opt_retract VT get_text) by reflexivity. reflexivity.
+Qed.
+
+Lemma get_op_enc o : get_op (enc_op o) = Some o.
+Proof.
+  destruct o as [n v a b|n]; [|reflexivity].
+  change (get_op (enc_op (OAdd n v a b))) with
+    (olet a' := get_hint (enc_hint a) in olet b' := get_hint (enc_hint b) in Some (OAdd n (Z.to_N (Z.of_N v)) a' b')).
+  rewrite !get_hint_enc. cbn [obind]. rewrite N2Z.id. reflexivity.
+Qed.
+
+Lemma get_tadd_enc x : get_tadd (enc_tadd x) = Some x.
+Proof.
+  destruct x as [[[n f] u] o].
+  change (get_tadd (enc_tadd (n, f, u, o))) with
+    (olet u' := get_hint (enc_hint u) in olet o' := get_hint (enc_hint o) in Some (n, Z.to_N (Z.of_N f), u', o')).
+  rewrite !get_hint_enc. cbn [obind]. rewrite N2Z.id. reflexivity.
+Qed.
+
+Lemma get_tevent_enc e : get_tevent (enc_tevent e) = Some e.
+Proof.
+  destruct e as [x| |]; [|reflexivity|reflexivity].
+  change (get_tevent (enc_tevent (TAdd x))) with (olet x' := get_tadd (enc_tadd x) in Some (TAdd x')).
+  rewrite get_tadd_enc. reflexivity.
+Qed.
+
+Lemma get_pkind_enc k : get_pkind (enc_pkind k) = Some k.
+Proof. destruct k; reflexivity. Qed.
+
+Lemma get_list_enc {A} (enc : A -> val) (dec : val -> option A) l :
+  (forall x, dec (enc x) = Some x) -> get_list_of dec (VL (map enc l)) = Some l.
+Proof. intros H. unfold get_list_of. apply map_opt_retract. exact H. Qed.
+
+Theorem run_C18_steps_judged z c ops :
+  get_cfg (VI z) = Some c ->
+  run_C18 (VL [VI 1; VI z; VL (map enc_op ops); run_C18 (VL [VI 0; VI z; VL (map enc_op ops)])])
+  = VL (map (fun _ => vbool true) ops).
+Proof.
+  intros Hc.
+  assert (E0 : run_C18 (VL [VI 0; VI z; VL (map enc_op ops)]) = VL (map put_step (run_ops (new_sorter c) ops))).
+  { change (run_C18 (VL [VI 0; VI z; VL (map enc_op ops)])) with
+      (ret_or_bad (olet c0 := get_cfg (VI z) in olet ops0 := get_list_of get_op (VL (map enc_op ops)) in
+                   Some (VL (map put_step (run_ops (new_sorter c0) ops0))))).
+    rewrite Hc, (get_list_enc enc_op get_op) by exact get_op_enc. reflexivity. }
+  rewrite E0.
+  change (ret_or_bad (olet c0 := get_cfg (VI z) in olet ops0 := get_list_of get_op (VL (map enc_op ops)) in
+                      Some (VL (judge_steps c0 [] ops0 (map put_step (run_ops (new_sorter c) ops)))))
+          = VL (map (fun _ => vbool true) ops)).
+  rewrite Hc, (get_list_enc enc_op get_op) by exact get_op_enc. cbn [obind ret_or_bad].
+  rewrite wire_steps_judged. reflexivity.
+Qed.
+
+Theorem run_C18_history_judged ex evs :
+  run_C18 (VL [VI 3; VL (map enc_pair ex); VL (map enc_tevent evs);
+               run_C18 (VL [VI 2; VL (map enc_pair ex); VL (map enc_tevent evs)])])
+  = VL (map (fun _ => vbool true) evs).
+Proof.
+  assert (E0 : run_C18 (VL [VI 2; VL (map enc_pair ex); VL (map enc_tevent evs)])
+               = VL (tweens_history (tweens_init ex) evs)).
+  { change (run_C18 (VL [VI 2; VL (map enc_pair ex); VL (map enc_tevent evs)])) with
+      (ret_or_bad (olet ex0 := get_pairs (map enc_pair ex) in
+                   olet evs0 := get_list_of get_tevent (VL (map enc_tevent evs)) in
+                   Some (VL (tweens_history (tweens_init ex0) evs0)))).
+    rewrite get_pairs_put, (get_list_enc enc_tevent get_tevent) by exact get_tevent_enc. reflexivity. }
+  rewrite E0.
+  change (ret_or_bad (olet ex0 := get_pairs (map enc_pair ex) in
+                      olet evs0 := get_list_of get_tevent (VL (map enc_tevent evs)) in
+                      Some (VL (judge_history ex0 tweens_init_decls evs0 (tweens_history (tweens_init ex) evs))))
+          = VL (map (fun _ => vbool true) evs)).
+  rewrite get_pairs_put, (get_list_enc enc_tevent get_tevent) by exact get_tevent_enc. cbn [obind ret_or_bad].
+  rewrite wire_history_judged. reflexivity.
+Qed.
+
+Theorem run_C18_derivers_judged adds :
+  match run_C18 (VL [VI 4; VL (map enc_tadd adds)]) with
+  | VL [_; obs] => run_C18 (VL [VI 5; VL (map enc_tadd adds); obs]) = vbool true
+  | _ => False
+  end.
+Proof.
+  assert (E0 : run_C18 (VL [VI 4; VL (map enc_tadd adds)])
+               = VL [put_codes (snd (derivers_scenario adds)); derivers_obs (fst (derivers_scenario adds))]).
+  { change (run_C18 (VL [VI 4; VL (map enc_tadd adds)])) with
+      (ret_or_bad (olet adds0 := get_list_of get_tadd (VL (map enc_tadd adds)) in
+                   let '(s, codes) := derivers_scenario adds0 in Some (VL [put_codes codes; derivers_obs s]))).
+    rewrite (get_list_enc enc_tadd get_tadd) by exact get_tadd_enc. cbn [obind].
+    destruct (derivers_scenario adds) as [s codes]. reflexivity. }
+  rewrite E0.
+  change (ret_or_bad (olet adds0 := get_list_of get_tadd (VL (map enc_tadd adds)) in
+                      Some (vbool (judge_derivers adds0 (derivers_obs (fst (derivers_scenario adds)))))) = vbool true).
+  rewrite (get_list_enc enc_tadd get_tadd) by exact get_tadd_enc. cbn [obind ret_or_bad].
+  rewrite wire_derivers_judged. reflexivity.
+Qed.
+
+Theorem run_C18_preds_judged k adds :
+  match run_C18 (VL [VI 6; enc_pkind k; VL (map enc_tadd adds)]) with
+  | VL [o; ev] => run_C18 (VL [VI 7; enc_pkind k; VL (map enc_tadd adds); VL [o; ev]]) = vbool true
+  | _ => False
+  end.
+Proof.
+  pose proof (wire_preds_judged k adds) as HW.
+  assert (E0 : run_C18 (VL [VI 6; enc_pkind k; VL (map enc_tadd adds)])
+               = VL [fst (preds_obs (preds_scenario k adds)); snd (preds_obs (preds_scenario k adds))]).
+  { change (run_C18 (VL [VI 6; enc_pkind k; VL (map enc_tadd adds)])) with
+      (ret_or_bad (olet k0 := get_pkind (enc_pkind k) in
+                   olet adds0 := get_list_of get_tadd (VL (map enc_tadd adds)) in
+                   let '(o, ev) := preds_obs (preds_scenario k0 adds0) in Some (VL [o; ev]))).
+    rewrite get_pkind_enc, (get_list_enc enc_tadd get_tadd) by exact get_tadd_enc. cbn [obind].
+    destruct (preds_obs (preds_scenario k adds)) as [o ev]. reflexivity. }
+  rewrite E0. destruct (preds_obs (preds_scenario k adds)) as [o ev]. cbn [fst snd].
+  change (ret_or_bad (olet k0 := get_pkind (enc_pkind k) in
+                      olet adds0 := get_list_of get_tadd (VL (map enc_tadd adds)) in
+                      olet b := judge_preds k0 adds0 o ev in Some (vbool b)) = vbool true).
+  rewrite get_pkind_enc, (get_list_enc enc_tadd get_tadd) by exact get_tadd_enc. cbn [obind].
+  rewrite HW. reflexivity.
+Qed.
